@@ -640,7 +640,6 @@ impl Writer {
         crate::verif::point("merge.unlinking", &[("last_output", merge_fileid)]);
         // Remove stale files from system and storage statistics
         for id in &fileids_to_merge {
-            self.ctx.stats.remove(id);
             if let Err(e) = fs::remove_file(utils::hintfile_name(path, *id)) {
                 if e.kind() != io::ErrorKind::NotFound {
                     return Err(e.into());
@@ -651,6 +650,9 @@ impl Writer {
                     return Err(e.into());
                 }
             }
+            // Only forget a file that is really gone, a file that could not be removed must
+            // stay known to later merges
+            self.ctx.stats.remove(id);
         }
 
         self.new_active_datafile(merge_fileid + 1)?;
